@@ -52,6 +52,23 @@ func (fr *Frame) call(st *State, pc Term, ins *ssa.Call) Val {
 		recv := fr.get(st, c.Value)
 		key := e.ifaceKey(c)
 		con := e.p.Contracts[key]
+		if key == "Lcs.Values" {
+			// assumed contract of github.com/yudai/golcs: Values() is a common subsequence of the two inputs
+			rt := e.toTerm(st, recv)
+			res := e.freshVal(st, "lcs", resT, "fresh", pc)
+			if ab, ok := e.lcsArgs[rt.S]; ok {
+				if sub := e.p.SpecFuncs["specIsSubseq"]; sub != nil {
+					rterm := e.toTerm(st, res)
+					for _, x := range ab {
+						if g, err := e.specCall(st, sub, []Term{rterm, x}); err == nil {
+							e.assume(Implies(pc, g))
+						}
+					}
+					e.note("assumed: golcs Values() returns a common subsequence of its inputs")
+				}
+			}
+			return res
+		}
 		if con == nil {
 			e.note("interface call %s has no contract: result unconstrained", key)
 			return e.freshVal(st, "inv_"+c.Method.Name(), resT, "call", pc)
@@ -577,6 +594,16 @@ func (fr *Frame) external(st *State, pc Term, callee *ssa.Function, args []Val, 
 			st.mem[r] = e.p.U.SArr(t)
 			return Val{K: vSlice, R: r, Off: IntLit(0), Len: src.Len, S: src.S}
 		}
+	case "github.com/yudai/golcs.New":
+		tok := e.fresh("lcs", SInt)
+		t := App(SAny, "a_other", tok, IntLit(int64(e.typeTag(resT))))
+		if e.lcsArgs == nil {
+			e.lcsArgs = map[string][]Term{}
+		}
+		if len(args) == 2 && args[0].K == vSlice && args[1].K == vSlice {
+			e.lcsArgs[t.S] = []Term{e.toTerm(st, args[0]), e.toTerm(st, args[1])}
+		}
+		return termVal(t)
 	case "math.Abs":
 		x := e.toTerm(st, args[0])
 		return termVal(Ite(Cmp("<", x, realLit(0)), Term{"(- " + x.S + ")", SReal}, x))
